@@ -165,7 +165,7 @@ def check(ctx):
             else:
                 r2.bad(V(r2.id, fid, "unpropagated:%s" % short_path(c.best),
                          "Result of filesystem-mutating step %s is not propagated: %s" % (c.best, how), c.file, c.line))
-    r2.require_floor(14, "Result-returning filesystem-mutating call sites on the generation path")
+    r2.require_floor(8, "Result-returning filesystem-mutating call sites on the generation path")
     rules.append(r2)
 
     r2b = Rule("C17-D2-main-exit-status", "D2",
